@@ -26,9 +26,11 @@ type Scenario struct {
 	PreludeKey *refsrv.RSAKeyJSON `json:"prelude_key,omitempty"`
 	// Aftermath: what the server, which considers the key established, sends after a key exchange the client aborted at
 	// its last step: "new-session", "bad-salt", "update" ("" = nothing)
-	Aftermath string       `json:"aftermath,omitempty"`
-	RPC       *RPCSpec     `json:"rpc,omitempty"`
-	Methods   *MethodsSpec `json:"methods,omitempty"`
+	Aftermath string `json:"aftermath,omitempty"`
+	// HSDCs (handshake): conformant reference servers registered in the client's data-centre list under these ids
+	HSDCs   []int        `json:"hs_dcs,omitempty"`
+	RPC     *RPCSpec     `json:"rpc,omitempty"`
+	Methods *MethodsSpec `json:"methods,omitempty"`
 	// C19: seed the process-global math/rand right before connecting (after the client object exists)
 	ReseedGlobal *int64 `json:"reseed_global,omitempty"`
 	// scheduling
@@ -49,6 +51,8 @@ type HSSpec struct {
 	ExtraFP     []int64 `json:"extra_fp,omitempty"`
 	// ExtraFPAfter: fingerprints offered after the real one
 	ExtraFPAfter []int64 `json:"extra_fp_after,omitempty"`
+	// Splits: reply i of the exchange arrives in two TCP segments, cut after Splits[i] bytes (0: in one)
+	Splits []int `json:"splits,omitempty"`
 }
 
 // ClientDraws overrides the client's own random draws through the tag-guarded hooks (nil field = client draws itself).
@@ -147,6 +151,8 @@ type RPCSpec struct {
 	// Decoy: the client is configured with the address of a second listener that must stay silent; the stored session
 	// names the real server (C12: a stored session decides where the client connects)
 	Decoy bool `json:"decoy,omitempty"`
+	// ServerSeqStart: the reference servers start their seq_no counters there (even; e.g. 2^31-6: the counter wraps)
+	ServerSeqStart int32 `json:"server_seq_start,omitempty"`
 }
 
 // Step ops:
@@ -190,11 +196,13 @@ type ReqSpec struct {
 }
 
 type AnsItem struct {
-	Tag     int    `json:"tag"`
-	Gzip    bool   `json:"gzip,omitempty"`
-	ErrCode int32  `json:"err_code,omitempty"` // answer with rpc_error(code, text) instead of the result
-	ErrText string `json:"err_text,omitempty"`
-	Again   bool   `json:"again,omitempty"` // answer a request that was already answered (repeated result)
+	Tag  int  `json:"tag"`
+	Gzip bool `json:"gzip,omitempty"`
+	// GzipStyle: how the server produced the stream (refsrv.GzipPackedStyle): 1 flushed in between, 2 stored, 3 Huffman only, 4 best
+	GzipStyle int    `json:"gzip_style,omitempty"`
+	ErrCode   int32  `json:"err_code,omitempty"` // answer with rpc_error(code, text) instead of the result
+	ErrText   string `json:"err_text,omitempty"`
+	Again     bool   `json:"again,omitempty"` // answer a request that was already answered (repeated result)
 }
 
 // PushSpec: a message the server sends on its own.
